@@ -61,6 +61,16 @@ impl Operator {
                 _ => None,
             }
         }
+        // A unitless number compares as if it had the unit of the
+        // other operand (while `1 == 1px` is false).
+        fn same_value(a: &Value, b: &Value) -> bool {
+            match (a, b) {
+                (Value::Numeric(a, _), Value::Numeric(b, _)) => {
+                    a.is_no_unit() != b.is_no_unit() && a.value == b.value
+                }
+                _ => false,
+            }
+        }
         Ok(match *self {
             Self::And => Some(if a.is_true() { b } else { a }),
             Self::Or => Some(if a.is_true() { a } else { b }),
@@ -68,9 +78,13 @@ impl Operator {
             Self::EqualSingle => cmp(a, b, &|a, b| a == b),
             Self::NotEqual => Some(Value::from(a != b)),
             Self::Greater => cmp(a, b, &|a, b| a > b),
-            Self::GreaterE => cmp(a, b, &|a, b| a >= b),
+            Self::GreaterE => {
+                cmp(a, b, &|a, b| same_value(&a, &b) || a >= b)
+            }
             Self::Lesser => cmp(a, b, &|a, b| a < b),
-            Self::LesserE => cmp(a, b, &|a, b| a <= b),
+            Self::LesserE => {
+                cmp(a, b, &|a, b| same_value(&a, &b) || a <= b)
+            }
             Self::Plus => match (a, b) {
                 (Value::Numeric(a, _), Value::Numeric(b, _)) => {
                     if a.unit == b.unit || b.is_no_unit() {
